@@ -479,6 +479,19 @@ func genC13(g *Gen) {
 		c13Case(g, e)
 	}
 
+	// 2b. literals at the machine-word boundaries, in every base and sign, alone and inside expressions
+	for _, e := range []uint{31, 32, 63, 64} {
+		for _, d := range []int64{-2, -1, 0, 1, 2} {
+			v := new(big.Int).Add(new(big.Int).Lsh(big.NewInt(1), e), big.NewInt(d))
+			for _, lit := range []string{v.String(), "0x" + v.Text(16), "0b" + v.Text(2), "-" + v.String(), "-0x" + v.Text(16)} {
+				for _, form := range []string{"%s", "%s+1", "2*%s", "%s-%s", "2^70-%s", "3 * %s / 3", "%s^2", "2^128 + %s"} {
+					c13Case(g, strings.ReplaceAll(form, "%s", lit))
+					g.Count("word-boundary-literal")
+				}
+			}
+		}
+	}
+
 	// 3. malformed classes, each derived from a random small well-formed expression
 	per := g.pick(400, 4000)
 	otherOps := []byte{'^', '*', '/', '+'}
